@@ -433,7 +433,7 @@ func runCrash(c Case) *h.Result {
 // tailOps bounds how many of the remaining operations are applied to a recovered directory. Under
 // the limits generated (<= 25) a compaction follows every second entered form at the latest, so
 // the next compactions - where a left-over temporary file matters - are always inside the bound.
-const tailOps = 12
+const tailOps = 10
 
 // crashAt: the process died at step pt of operation i. The next start must load a consistent
 // state, and the rest of the operations, applied to what was recovered, must end in a state
